@@ -83,14 +83,20 @@ def run(tier):
             ck.traces(1)
         if len(ck.cov["samples"]) < 4:
             ck.sample({"scenario": s, "k_values": len(ks), "events": [e for e in evs[:12]]})
+    # ---- the dictionary trainers allocate with malloc/calloc directly: link-time interposition, same enumeration
+    from checks import trainfault
+    total_k += trainfault.sweep(ck, PID, tier)
     ck.cov["fault_positions_enumerated"] = total_k
     ck.cov["exhaustive"] = True
-    ck.assumptions += ["single faults (one failing allocation per run), enumerated exhaustively per scenario; dictionary trainers allocate with malloc directly and are not covered here",
+    ck.assumptions += ["single faults (one failing allocation per run), enumerated exhaustively per scenario; the dictionary trainers allocate with malloc/calloc directly and are reached by link-time interposition (checks/trainfault.py), where leaks are decided by LeakSanitizer instead of the arena",
                        "the arena never reuses memory; use after free is detected by ASan poisoning, foreign frees by ASan's invalid-free check"]
     return ck.finish(rule="one case per (scenario, operation, verdict, fault-in-operation); every k in 1..allocs(scenario) is run", exhaustive=True)
 
 
 def replay(path):
+    if os.path.basename(path).startswith("train-fault-"):
+        from checks import trainfault
+        return trainfault.replay(path)
     d = json.load(open(path))
     exe = core.build_exe("allocdrv", ["allocdrv.c"], "san")
     od = os.path.join(core.OUT, PID); os.makedirs(od, exist_ok=True)
